@@ -5,7 +5,8 @@
    IVal z (an integer result), IEvalErr (problog ArithmeticError) or IOther.
    The right-hand sides are the ISO/SWI/YAP reference of IsoArith.v. *)
 From Coq Require Import ZArith QArith String List Bool.
-From PL.C16 Require Import PyNum GenArithTable ModelEval IsoArith ProofsArith.
+From Coq Require Import Sorted.
+From PL.C16 Require Import PyNum GenArithTable ModelEval IsoArith ProofsArith GenModes ModelBuiltins ProofsBuiltins.
 Import ListNotations.
 Open Scope Z_scope.
 
@@ -101,7 +102,7 @@ Theorem C16_zero_divisor :
          /\ is_m (EApp2 "div" (ENum (VInt a)) (ENum (VInt 0))) = OArithErr.
 Proof. exact zero_divisor_is_problog_error. Qed.
 Print Assumptions C16_zero_divisor.
-Theorem C16_unbound_is_problog_error : forall e, ground e = false -> is_m e = OCallMode.
+Theorem C16_unbound_is_problog_error : forall e, ModelEval.ground e = false -> is_m e = OCallMode.
 Proof. exact nonground_is_callmode. Qed.
 Print Assumptions C16_unbound_is_problog_error.
 
@@ -116,6 +117,108 @@ Theorem C16_truncate : forall q, is_m (EApp1 "truncate" (ENum (VFlt q))) = OVal 
 Proof. exact truncate_ok. Qed.
 Print Assumptions C16_truncate.
 
+(* ================================================================ term builtins
+   (hand models of engine_builtin.py, mode tables generated from the source) *)
+
+(* between(+L, +H, -X) enumerates exactly the integers L..H, ascending, once each *)
+Theorem C16_between_enumerates : forall l h v,
+  between_m (TInt l) (TInt h) (TVar v) = Sols (map (fun x => [TInt l; TInt h; TInt x]) (zrange l h)).
+Proof. exact between_enumerates. Qed.
+Print Assumptions C16_between_enumerates.
+Theorem C16_between_range : forall l h x, In x (zrange l h) <-> l <= x <= h.
+Proof. exact zrange_in. Qed.
+Print Assumptions C16_between_range.
+Theorem C16_between_ascending : forall l h, StronglySorted Z.lt (zrange l h).
+Proof. exact zrange_sorted. Qed.
+Print Assumptions C16_between_ascending.
+Theorem C16_between_checks : forall l h x,
+  between_m (TInt l) (TInt h) (TInt x) = if (l <=? x) && (x <=? h) then Sols [[TInt l; TInt h; TInt x]] else Sols [].
+Proof. exact between_checks. Qed.
+Print Assumptions C16_between_checks.
+Theorem C16_between_mode_error : forall l h x,
+  is_integer l = false \/ is_integer h = false \/ (is_integer x = false /\ is_var x = false) -> between_m l h x = ModeErr.
+Proof. exact between_mode_error. Qed.
+Print Assumptions C16_between_mode_error.
+
+(* succ/2 on naturals (the guard excludes the defect class: a zero / negative argument,
+   Findings.v C16_succ_zero_refuted): each mode gives exactly the Prolog solutions *)
+Theorem C16_succ : forall v a b,
+  (0 < b -> forall x, In [TInt x; TInt b] (sols_of (succ_m (TVar v) (TInt b))) <-> succ_rel x b)
+  /\ (0 <= a -> forall y, In [TInt a; TInt y] (sols_of (succ_m (TInt a) (TVar v))) <-> succ_rel a y)
+  /\ (0 <= a -> (sols_of (succ_m (TInt a) (TInt b)) <> [] <-> succ_rel a b)).
+Proof. exact succ_exact_on_naturals. Qed.
+Print Assumptions C16_succ.
+
+(* plus/3: every mode returns one solution, the one with A + B = C *)
+Theorem C16_plus_modes : forall a b c v,
+  plus_m (TInt a) (TInt b) (TVar v) = Sols [[TInt a; TInt b; TInt (a + b)]]
+  /\ plus_m (TInt a) (TVar v) (TInt c) = Sols [[TInt a; TInt (c - a); TInt c]]
+  /\ plus_m (TVar v) (TInt b) (TInt c) = Sols [[TInt (c - b); TInt b; TInt c]]
+  /\ plus_m (TInt a) (TInt b) (TInt c) = if a + b =? c then Sols [[TInt a; TInt b; TInt c]] else Sols [].
+Proof. exact plus_modes. Qed.
+Print Assumptions C16_plus_modes.
+Theorem C16_plus : forall a b c v x,
+  (In [TInt a; TInt b; TInt x] (sols_of (plus_m (TInt a) (TInt b) (TVar v))) <-> x = a + b)
+  /\ (In [TInt a; TInt x; TInt c] (sols_of (plus_m (TInt a) (TVar v) (TInt c))) <-> a + x = c)
+  /\ (In [TInt x; TInt b; TInt c] (sols_of (plus_m (TVar v) (TInt b) (TInt c))) <-> x + b = c)
+  /\ (sols_of (plus_m (TInt a) (TInt b) (TInt c)) <> [] <-> a + b = c).
+Proof. exact plus_sound. Qed.
+Print Assumptions C16_plus.
+
+(* length/2 *)
+Theorem C16_length_of_list : forall fr xs v,
+  length_m fr (mklist xs nil_t) (TVar v) = Sols [[mklist xs nil_t; TInt (Z.of_nat (List.length xs))]].
+Proof. exact length_of_proper_list. Qed.
+Print Assumptions C16_length_of_list.
+Theorem C16_length_check : forall fr xs n,
+  length_m fr (mklist xs nil_t) (TInt n) =
+  if Z.of_nat (List.length xs) =? n then Sols [[mklist xs nil_t; TInt (Z.of_nat (List.length xs))]] else Sols [].
+Proof. exact length_check_proper_list. Qed.
+Print Assumptions C16_length_check.
+Theorem C16_length_builds : forall fr v n, 0 <= n ->
+  length_m fr (TVar v) (TInt n) = Sols [[mklist (fresh_vars fr (Z.to_nat n)) nil_t; TInt n]]
+  /\ List.length (fresh_vars fr (Z.to_nat n)) = Z.to_nat n.
+Proof. exact length_builds_list. Qed.
+Print Assumptions C16_length_builds.
+
+(* functor/3, arg/3, =../2 *)
+Theorem C16_functor_decomposes : forall fr g args v1 v2,
+  functor_m fr (TApp g args) (TVar v1) (TVar v2) = Sols [[TApp g args; atom g; TInt (Z.of_nat (List.length args))]].
+Proof. exact functor_decomposes. Qed.
+Print Assumptions C16_functor_decomposes.
+Theorem C16_functor_constructs : forall fr g v n, 0 <= n ->
+  functor_m fr (TVar v) (atom g) (TInt n) = Sols [[TApp g (fresh_vars fr (Z.to_nat n)); atom g; TInt n]]
+  /\ List.length (fresh_vars fr (Z.to_nat n)) = Z.to_nat n.
+Proof. exact functor_constructs. Qed.
+Print Assumptions C16_functor_constructs.
+Theorem C16_functor_checks : forall fr g args h n,
+  functor_m fr (TApp g args) (atom h) (TInt n) =
+  if String.eqb g h && (Z.of_nat (List.length args) =? n) then Sols [[TApp g args; atom g; TInt (Z.of_nat (List.length args))]] else Sols [].
+Proof. exact functor_checks. Qed.
+Print Assumptions C16_functor_checks.
+Theorem C16_arg_selects : forall i g args v, 1 <= i ->
+  arg_m (TInt i) (TApp g args) (TVar v) =
+  Sols (match nth_error args (Z.to_nat (i - 1)) with Some x => [[TInt i; TApp g args; x]] | None => [] end).
+Proof. exact arg_selects. Qed.
+Print Assumptions C16_arg_selects.
+Theorem C16_arg_out_of_range : forall i g args v, i <= 0 -> arg_m (TInt i) (TApp g args) (TVar v) = Sols [].
+Proof. exact arg_out_of_range. Qed.
+Print Assumptions C16_arg_out_of_range.
+Theorem C16_univ_decomposes : forall g args v,
+  univ_m (TApp g args) (TVar v) = Sols [[TApp g args; mklist (atom g :: args) nil_t]].
+Proof. exact univ_decomposes. Qed.
+Print Assumptions C16_univ_decomposes.
+Theorem C16_univ_constructs : forall g a args v,
+  univ_m (TVar v) (mklist (atom g :: a :: args) nil_t) = Sols [[TApp g (a :: args); mklist (atom g :: a :: args) nil_t]].
+Proof. exact univ_constructs. Qed.
+Print Assumptions C16_univ_constructs.
+
+(* type tests: the standard classification, outside three input classes (Findings.v):
+   a run-time '-'(Number) compound, a partial list for is_list/1, a string for atomic/1 *)
+Theorem C16_type_tests : forall k t, type_test_guard k t = true -> type_test k t = iso_type_test k t.
+Proof. exact type_tests_standard. Qed.
+Print Assumptions C16_type_tests.
+
 (* non-vacuity *)
 Example C16_ex_guard_true : intdiv_guard (-8) 2 = true /\ intdiv_guard 7 2 = true /\ intdiv_guard (-7) (-2) = true.
 Proof. vm_compute. auto. Qed.
@@ -127,4 +230,14 @@ Example C16_ex_values :
   /\ is_m (EApp2 "+" (ENum (VInt 1)) (EApp2 "*" (ENum (VInt 2)) (ENum (VInt 3)))) = OVal (VInt 7)
   /\ is_m (EApp2 "+" (ENum (VInt 1)) EVar) = OCallMode
   /\ is_m (EApp1 "cot" (ENum (VInt 1))) = OArithErr.
+Proof. vm_compute. repeat split; reflexivity. Qed.
+Example C16_ex_builtins :
+  between_m (TInt (-1)) (TInt 2) (TVar 0) = Sols [[TInt (-1); TInt 2; TInt (-1)]; [TInt (-1); TInt 2; TInt 0]; [TInt (-1); TInt 2; TInt 1]; [TInt (-1); TInt 2; TInt 2]]
+  /\ between_m (TInt 3) (TInt 1) (TVar 0) = Sols []
+  /\ length_m 7 (mklist [atom "a"] (TVar 1)) (TInt 3) = Sols [[mklist [atom "a"; TVar 7; TVar 8] nil_t; TInt 3]]
+  /\ arg_m (TInt 2) (TApp "foo" [atom "a"; atom "b"]) (TVar 0) = Sols [[TInt 2; TApp "foo" [atom "a"; atom "b"]; atom "b"]]
+  /\ univ_m (TVar 0) (mklist [atom "foo"; TInt 1] nil_t) = Sols [[TApp "foo" [TInt 1]; mklist [atom "foo"; TInt 1] nil_t]]
+  /\ type_test_guard T_is_list (mklist [atom "a"] nil_t) = true
+  /\ type_test_guard T_integer (TInt (-3)) = true
+  /\ succ_m (TVar 0) (TVar 1) = ModeErr.
 Proof. vm_compute. repeat split; reflexivity. Qed.
